@@ -189,4 +189,55 @@ Section TAction.
 
   Lemma orbit_length i : length (orbit i) = nlp.
   Proof. unfold orbit. rewrite map_length, seq_length. reflexivity. Qed.
+  (** The algorithm of [get_indep_atoms_by_lat_trans] as the source writes it (shape regenerated in gen/IndepGen.v):
+      scan the atoms in increasing order, keep an atom unless an atom kept earlier occurs in its column of the
+      translation table (= in its orbit).  It returns exactly the orbit minima, in increasing order. *)
+  Definition in_column (i j : nat) : bool := existsb (fun t => act t i =? j) (seq 0 nlp).
+  Fixpoint scan (todo uniq : list nat) : list nat :=
+    match todo with
+    | [] => uniq
+    | i :: rest => if existsb (in_column i) uniq then scan rest uniq else scan rest (uniq ++ [i])
+    end.
+  Definition indep_scan : list nat := scan (seq 0 N) [].
+
+  Lemma in_column_spec i j : in_column i j = true <-> exists t, t < nlp /\ act t i = j.
+  Proof.
+    unfold in_column. rewrite existsb_seq. split; intros [t [Ht E]]; exists t; (split; [exact Ht|]).
+    - apply Nat.eqb_eq. exact E.
+    - apply Nat.eqb_eq. exact E.
+  Qed.
+
+  Lemma found_iff_not_indep k : k < N ->
+    existsb (in_column k) (filter is_indep (seq 0 k)) = negb (is_indep k).
+  Proof.
+    intros Hk. destruct (is_indep k) eqn:Ei; cbn [negb].
+    - (* k is the minimum of its orbit: no smaller atom is in its column *)
+      apply not_true_is_false. intros H. apply existsb_exists in H. destruct H as [j [Hj Hc]].
+      apply filter_In in Hj. destruct Hj as [Hj _]. apply in_seq in Hj.
+      apply in_column_spec in Hc. destruct Hc as [t [Ht E]].
+      unfold is_indep in Ei. apply Nat.eqb_eq in Ei.
+      pose proof (omin_le_orbit k t Ht) as Hle. rewrite E, Ei in Hle. lia.
+    - (* otherwise its orbit minimum is smaller, independent, and in its column *)
+      apply existsb_exists. exists (omin k). split.
+      + apply filter_In. split.
+        * apply in_seq. unfold is_indep in Ei. apply Nat.eqb_neq in Ei. pose proof (omin_le_self k Hk). lia.
+        * unfold is_indep. apply Nat.eqb_eq. apply omin_idem. exact Hk.
+      + apply in_column_spec. destruct (omin_in_orbit k Hk) as [t [Ht E]]. exists t. split; [exact Ht | symmetry; exact E].
+  Qed.
+
+  Lemma scan_invariant m : forall k, k + m = N ->
+    scan (seq k m) (filter is_indep (seq 0 k)) = filter is_indep (seq 0 N).
+  Proof.
+    induction m as [|m IH]; intros k Hkm.
+    - cbn [seq scan]. replace k with N by lia. reflexivity.
+    - cbn [seq scan]. rewrite found_iff_not_indep by lia.
+      assert (E : filter is_indep (seq 0 (S k)) = filter is_indep (seq 0 k) ++ (if is_indep k then [k] else [])).
+      { rewrite seq_S, filter_app. cbn [filter Nat.add]. destruct (is_indep k); reflexivity. }
+      destruct (is_indep k) eqn:Ei; cbn [negb].
+      + rewrite <- E. apply IH. lia.
+      + rewrite app_nil_r in E. rewrite <- E. apply IH. lia.
+  Qed.
+
+  Theorem indep_scan_eq : indep_scan = indep_atoms.
+  Proof. unfold indep_scan, indep_atoms. exact (scan_invariant N 0 eq_refl). Qed.
 End TAction.
